@@ -555,7 +555,7 @@ class Lemmas:
                     if t["t"] == "assert" and t["msg"]["ak"] == "BoundsCheck":
                         it = terms.strip(P.operand_term(fb, bb, t["msg"]["index"]))
                         ln = canon(P.operand_term(fb, bb, t["msg"]["len"]))
-                        if it[0] == "const" and it[1] == "int" and ln == "len(args)":
+                        if it[0] == "const" and it[1] == "int" and ln in ("len(args)", "len(%s)" % fb.local_name(2)):   # the argument slice, whatever the parameter is called
                             mx = max(mx, it[2])
                         else:
                             bad.append(canon(it))
@@ -1475,7 +1475,7 @@ def r_position_unwrap(P, L, s, d):
 
 def r_func(P, L, s, d):
     fn = s.body.name
-    if d["kind"] == "assert" and d["construct"] == "BoundsCheck" and d["len"] == "len(args)":
+    if d["kind"] == "assert" and d["construct"] == "BoundsCheck" and d["len"] in ("len(args)", "len(%s)" % s.body.local_name(2)):
         tabl = L.func_table() or []
         if fn in [t[2] for t in tabl]:
             return (L.need("FUNC"), "constant index below the arity of the table entry, and Expr::Func is only built with matching arity; lemma FUNC")
